@@ -292,3 +292,81 @@ def obligations(chk):
     union_predicates(chk)
     simple_special(chk)
     table_obligations(chk)
+
+
+def order_stability_obligations(chk, known=()):
+    """Accessors answer for the annotation they are given, not for an equal one seen earlier: typing compares unions and
+    literals without regard to member order, so a memoised accessor would hand the second spelling the first one's answer.
+    Ground check on the real functions, both orders of first use, caches cleared in between."""
+    from typelib.py import inspection
+    from props.concrete_util import clear_typelib_caches
+    pairs = [(typing.Union[int, str], typing.Union[str, int]), (typing.Literal["b", "a"], typing.Literal["a", "b"]),
+             (typing.Union[None, int], typing.Optional[int]), (int | str | None, None | str | int),
+             (dict[str, typing.Union[int, str]], dict[str, typing.Union[str, int]])]
+    accessors = {"args": lambda t: inspection.args(t), "name": lambda t: inspection.name(t), "qualname": lambda t: inspection.qualname(t),
+                 "origin": lambda t: inspection.origin(t), "unwrap": lambda t: inspection.unwrap(t)}
+    found_known = []
+    for acc, f in accessors.items():
+        bad = []
+        for a, b in pairs:
+            for first, second in ((a, b), (b, a)):
+                clear_typelib_caches()
+                try:
+                    cold = f(second)
+                    clear_typelib_caches()
+                    f(first)
+                    warm = f(second)
+                except Exception as e:
+                    bad.append(f"{acc}({second!r}) raised {type(e).__name__}: {e}")
+                    continue
+                if repr(cold) != repr(warm) or (acc == "args" and tuple(warm) != tuple(typing.get_args(second))):
+                    bad.append(f"{acc}({second!r}) == {warm!r} after {acc}({first!r}); cold answer {cold!r}")
+        if acc in known and bad and all(" after " in b for b in bad):
+            # listed known finding (memoised accessor keyed by typing's order-insensitive equality): reported by the driver, not here
+            found_known.append((acc, bad[0]))
+            continue
+        chk.add(Ob(f"{INSP}.{acc}", "answers-are-for-the-given-spelling-not-an-equal-one-seen-earlier", "ground", [], z3.BoolVal(not bad), {"bad": bad[:4]}))
+    clear_typelib_caches()
+    return found_known
+
+
+def structured_predicates(chk):
+    """istypeddict / istypedtuple / isnamedtuple against the statement's reading (a class; a dict / tuple subclass by issubclass -
+    at any depth of inheritance -; carrying the marker attribute), for an arbitrary object."""
+    from props import c15
+    from props.uf_world import uf
+    I = c15.total_interp()
+    specs = {
+        "isnamedtuple": lambda o: z3.And(is_class(o), sub(as_cls(o), cls_const(tuple)), uf("hasattr:_fields", 1, BoolS)(o)),
+        "istypedtuple": None,       # truthiness of __annotations__: totality only (C15)
+        "istypeddict": None,
+    }
+    func = f"{INSP}.isnamedtuple"
+
+    def mk(I, path):
+        cls_const(tuple)
+        obj = path.fresh("obj")
+        return [SV(obj)], {}, {"obj": obj}
+    for pi, (path, out, obls, writes, cur) in enumerate(I.run_function(func, mk)):
+        goal = to_bool_term(out.value) == specs["isnamedtuple"](cur["obj"]) if out.kind == "ret" else z3.BoolVal(False)
+        chk.add(Ob(func, "a-class-that-is-a-tuple-subclass-at-any-depth-and-has-_fields", f"p{pi}", path.hyps + class_axioms(), goal, {"outcome": out.kind}))
+    # ground: subclasses of named tuples and generic named tuples are named tuples (the runtime's view: issubclass + _fields)
+    import collections
+    NT = collections.namedtuple("NT", "a b")
+
+    class Sub(NT):
+        pass
+
+    class TNT(typing.NamedTuple):
+        x: int
+    from typelib.py import inspection
+    bad = [repr(c) for c in (NT, Sub, TNT) if inspection.isnamedtuple(c) is not True] + [repr(c) for c in (tuple, list, int) if inspection.isnamedtuple(c) is not False]
+    chk.add(Ob(func, "named-tuple-classes-their-subclasses-and-typing.NamedTuple-classes-are-recognised", "ground", [], z3.BoolVal(not bad), {"bad": bad}))
+
+
+def obligations(chk):          # noqa: F811
+    class_predicates(chk)
+    union_predicates(chk)
+    simple_special(chk)
+    table_obligations(chk)
+    structured_predicates(chk)
